@@ -380,7 +380,7 @@ pub fn small_project(r: &mut Rng) -> (Vec<(String, Vec<String>)>, Vec<(String, S
     (vec![("lib".to_string(), names)], files)
 }
 
-fn read_latin1(path: &str) -> String {
+pub fn read_latin1(path: &str) -> String {
     let bytes = std::fs::read(path).unwrap_or_default();
     normalize(&bytes.iter().map(|&b| b as char).collect::<String>())
 }
@@ -427,6 +427,18 @@ pub fn ownstd_project(_r: &mut Rng) -> (Vec<(String, Vec<String>)>, Vec<(String,
             ("std".to_string(), vec!["std/standard.vhd".into(), "std/textio.vhd".into(), "std/env.vhd".into()]),
             ("lib".to_string(), vec!["user.vhd".into()]),
         ],
+        files,
+    )
+}
+
+/// The project edits its own copy of ieee.std_logic_1164 (declaration only) plus a small user.
+pub fn ownieee_project(_r: &mut Rng) -> (Vec<(String, Vec<String>)>, Vec<(String, String)>) {
+    let files = vec![
+        ("ieee/std_logic_1164.vhdl".to_string(), read_latin1("/repo/vhdl_libraries/ieee2008/std_logic_1164.vhdl")),
+        ("u.vhd".to_string(), "library ieee;\nuse ieee.std_logic_1164.all;\n\nentity u is\n  port (a : in std_logic_vector(1 downto 0); b : out boolean; c : out std_ulogic);\nend entity;\n\narchitecture r of u is\n  signal s : std_logic := 'U';\nbegin\n  b <= a ?= \"01\";\n  c <= s and a(0);\nend architecture;\n".to_string()),
+    ];
+    (
+        vec![("ieee".to_string(), vec!["ieee/std_logic_1164.vhdl".into()]), ("lib".to_string(), vec!["u.vhd".into()])],
         files,
     )
 }
@@ -722,18 +734,20 @@ fn push_edit(edits: &mut Vec<Edit>, cur: &mut [(String, String)], fi: usize, ed:
 /// A case of the exploration: family by index, history length by tier.
 pub fn gen_case(seed: u64, idx: usize, nsteps: usize) -> Case {
     let mut r = Rng::new(seed.wrapping_mul(1_000_003).wrapping_add(idx as u64));
-    let fam = match idx % 10 {
-        0 | 1 | 2 => "gen-ieee",
-        3 | 4 => "gen-std",
-        5 | 6 => "small",
-        7 | 8 => "slice",
-        _ => "ownstd",
+    let fam = match idx % 20 {
+        0..=5 => "gen-ieee",
+        6..=9 => "gen-std",
+        10..=13 => "small",
+        14..=17 => "slice",
+        18 => "ownstd",
+        _ => "ownieee",
     };
     let (std_mode, (libs, files)) = match fam {
         "gen-ieee" => ("full", gen_project(&mut r, true, false)),
         "gen-std" => ("std", gen_project(&mut r, false, false)),
         "small" => (if r.chance(1, 6) { "none" } else { "std" }, small_project(&mut r)),
         "slice" => ("full", slice_project(&mut r)),
+        "ownieee" => ("std", ownieee_project(&mut r)),
         _ => ("own", ownstd_project(&mut r)),
     };
     let editable: Vec<String> = files.iter().map(|(n, _)| n.clone()).collect();
